@@ -5,6 +5,7 @@ package main
 import (
 	"encoding/json"
 	"fmt"
+	"io"
 	"os"
 	"sort"
 
@@ -20,6 +21,12 @@ func main() {
 	switch os.Args[1] {
 	case "worker":
 		os.Exit(vf.WorkerMain())
+	case "mlr":
+		// debugging aid: run one invocation in-process, stdin from the real stdin
+		in, _ := io.ReadAll(os.Stdin)
+		sin := string(in)
+		r := vf.RunMlr(os.Args[2:], vf.MlrOpts{Stdin: &sin})
+		fmt.Printf("exit=%d exited=%v err=%q panic=%q\n--- stdout\n%s--- stderr\n%s", r.Exit, r.Exited, r.Err, r.Panic, r.Stdout, r.Stderr)
 	case "list":
 		var ids []string
 		for id := range vf.Registry {
